@@ -70,6 +70,14 @@ def items(tier, seed):
                         if u != v:
                             out.append({"k": "pair", "db": dbn, "qt": qt, "u": u, "v": v})
                             out.append({"k": "triple", "db": dbn, "qt": qt, "u": u, "v": units[0], "w": v})
+    # the [(unit, exponent)] form of Convert on scale-only pairs
+    db = get_db("default")
+    exp_pairs = []
+    for qt in db.GetQuantityTypes():
+        us = [u for u in db.GetUnits(qt) if getattr(db.GetInfo(qt, u).tobase, "__a__", 0.0) == 0.0]
+        exp_pairs += [(qt, u, v) for u in us[:6] for v in us[:6] if u != v]
+    for qt, u, v in seeded_sample(exp_pairs, 120 if tier == "quick" else 3000, seed + 5):
+        out.append({"k": "exp", "db": "default", "qt": qt, "u": u, "v": v, "e": rng.choice([2, 3, -1, -2, -3])})
     # seeded extras
     db = get_db("default")
     allp, allt = [], []
@@ -87,12 +95,15 @@ def items(tier, seed):
         out += [{"k": "triple", "db": d, "qt": qt, "u": u, "v": v, "w": w} for d, qt, u, v, w in seeded_sample(allt, 600, seed)]
     else:
         out += [{"k": "triple", "db": d, "qt": qt, "u": u, "v": v, "w": w} for d, qt, u, v, w in seeded_sample(allt, 40000, seed)]
+    for i, c in enumerate(out):
+        if c["k"] in ("pair", "triple") and i % 2 == 0 and c["db"] != "simple":
+            c["prelude"] = True  # history: the documented pass-through conversion of an Unknown-quantity value between the same units comes first
     rng.shuffle(out)
     return out
 
 
 def inputs(cfg):
-    return {"x": "real", "y": "real"} if cfg["k"] == "unit" else {"x": "real"}
+    return {"x": "real", "y": "real"} if cfg["k"] in ("unit", "exp") else {"x": "real"}
 
 
 def run(cfg, V):
@@ -104,6 +115,19 @@ def run(cfg, V):
         return {"tb_x": info.tobase(x), "tb_y": info.tobase(y), "fb_x": info.frombase(x), "fb_y": info.frombase(y),
                 "fb_tb_x": info.frombase(info.tobase(x)), "tb_fb_x": info.tobase(info.frombase(x))}
     qt, u, v = cfg["qt"], cfg["u"], cfg["v"]
+    if cfg.get("prelude"):
+        from barril.units import UNKNOWN_QUANTITY_TYPE
+
+        for a, b in ((u, v), (v, u), (u, cfg.get("w", v)), (v, cfg.get("w", u))):
+            db.Convert(UNKNOWN_QUANTITY_TYPE, a, b, 1.0)
+            db.Convert(UNKNOWN_QUANTITY_TYPE, a, b, [1.0])
+    if cfg["k"] == "exp":
+        e = cfg["e"]
+        y = V["y"]
+        r = db.Convert(qt, [(u, e)], [(v, e)], x)
+        ry = db.Convert(qt, [(u, e)], [(v, e)], y)
+        back = db.Convert(qt, [(v, e)], [(u, e)], r)
+        return {"r": r, "ry": ry, "back": back}
     if cfg["k"] == "pair":
         same = db.Convert(qt, u, u, x)
         r = db.Convert(qt, u, v, x)
@@ -120,6 +144,8 @@ def run(cfg, V):
 
 def props(cfg, T, obs):
     if isinstance(obs, Raised):
+        if cfg["k"] == "exp" and cfg["e"] < 0 and obs.isa(ValueError):
+            return []  # 0 ** (1/negative): math domain error for the amount 0 (stated exemption of the exponent route)
         # a conversion inside one quantity type never raises for a finite amount (no poles in the table)
         return [("no-exception", False)]
     x = T["x"]
@@ -133,6 +159,18 @@ def props(cfg, T, obs):
         ]
         if cfg.get("canary"):
             P.append(("canary:tobase-of-non-base-unit-is-identity", approx(obs["tb_x"], x)))
+        return P
+    if cfg["k"] == "exp":
+        from .common import slope_of, zpow, oracle_convert
+
+        db = get_db(cfg["db"])
+        e = cfg["e"]
+        ratio = slope_of(lambda t: oracle_convert(db, cfg["qt"], cfg["u"], cfg["v"], t))
+        y = T["y"]
+        P = [("Convert with exponents: value ~ x * ratio^e (sign kept)", approx(obs["r"], x * zpow(ratio, e))), ("exponent form round trip", approx(obs["back"], x))]
+        if e % 2 == 1:
+            P.append(("odd exponents keep the order of two amounts", z3.Implies(z3.And(x < y, x != 0, y != 0) if e < 0 else x < y,
+                                                                              (term(obs["r"]) < term(obs["ry"])) if e > 0 else z3.BoolVal(True))))
         return P
     if cfg["k"] == "pair":
         return [
